@@ -96,7 +96,11 @@ TEnd == /\ l <= Len(Trace) /\ Trace[l].ev = "end" /\ l' = l + 1
         /\ UNCHANGED <<ast, prog, failAt, runs, st>>
         /\ LET e == Trace[l]
                complete == st.pc > Len(prog)
-               bad == IF ~st.j THEN "none"
+               \* an instruction that fails by panicking produces no step event: the end event follows directly
+               nx == IF ~complete /\ st.err = "none" /\ st.j THEN Apply(prog, st, failAt) ELSE st
+               bad == IF ~st.j \/ ~nx.j THEN "none"
+                      ELSE IF st.err = "none" /\ ~complete /\ nx.err # "none"
+                      THEN (IF ~SameErr(nx.err, e.err) THEN "end:error-identity" ELSE IF e.hasRes THEN "end:value-and-error" ELSE "none")
                       ELSE IF st.err # "none"
                       THEN (IF ~SameErr(st.err, e.err) THEN "end:error-identity" ELSE IF e.hasRes THEN "end:value-and-error" ELSE "none")
                       ELSE IF ~complete THEN "end:stopped-early"
